@@ -281,6 +281,15 @@ impl BytecodeBuilder {
     ///
     /// NOTE: All Op variants with a JumpTarget field must be listed here.
     /// We explicitly list non-jump variants to get compile errors when new jump ops are added.
+    /// Set the scope depth recorded in a Break/Continue instruction (known once the target is)
+    pub fn patch_scope_depth(&mut self, placeholder: JumpPlaceholder, depth: u16) {
+        if let Some(Op::Break { scope_depth, .. } | Op::Continue { scope_depth, .. }) =
+            self.code.get_mut(placeholder.instruction_index)
+        {
+            *scope_depth = depth;
+        }
+    }
+
     pub fn patch_jump_to(&mut self, placeholder: JumpPlaceholder, target: JumpTarget) {
         if let Some(op) = self.code.get_mut(placeholder.instruction_index) {
             match op {
